@@ -165,6 +165,16 @@ def main(argv):
                 m['error'] = m['error'] or part['error']
         results = list(merged.values())
     extra_res = extra.run(prop, a.tier, seed)
+    # CPython cross-check of the front end (validates the tool on every run; larger in the thorough tier)
+    from givc import crosscheck
+    total, agree, problems = crosscheck.run(seed, rounds=3 if a.tier == 'quick' else 40)
+    extra_res['detail']['engine_crosscheck'] = {'executions': total, 'agree': agree, 'problems': [repr(p)[:300] for p in problems[:10]]}
+    if problems:
+        print('CHECKER-ERROR: the symbolic semantics disagrees with CPython on %d self-test executions' % len(problems))
+        for p_ in problems[:5]:
+            print('   ', p_)
+        report(prop, a.tier, seed, results, extra_res, t0)
+        return 3
     return report(prop, a.tier, seed, results, extra_res, t0)
 
 
